@@ -1,14 +1,19 @@
 /-
   C01 — generated moves are exactly the legal moves.
 
-  Status: SOUNDNESS is proved on the model at full strength — `no_illegal_move_generated`: for every
+  Status: SOUNDNESS and COMPLETENESS are proved on the model at full strength —
+  `generated_moves_are_exactly_the_legal_moves`: for every well-formed position, a move is carried by
+  some successor of the full move generation if and only if it is legal under the specification's
+  rules (`no_legal_move_missing` is the new direction: ordinary moves incl. every promotion piece,
+  en passant, the four castlings).  `no_illegal_move_generated`: for every
   well-formed position (sentinel ring, no inner sentinel, king caches right, abstraction a legal
   position in the sense of the property), every successor of the full move generation carries a
   move that is LEGAL under the specification's rules (rules of movement of its piece, promotion
   flag exactly on the last rank, en passant only onto the target, castling only with right, rook,
   empty and unattacked squares — adjacent enemy king included —, own king not attacked afterwards).
   The pseudo-legal stage is an equivalence (`pseudo_targets_are_the_rules`, both directions).
-  COMPLETENESS (no legal move missing) and "no move twice" are decided on every run by the
+  "No move appears twice" (the successor list has no two entries with the same move) and the
+  preservation of well-formedness along chains are decided on every run by the
   correspondence with the SPEC oracle (exhaustive castling lattice, two-ply special chains,
   playouts, constructed positions).  Also proved, for every position satisfying the chain invariant
   and every hasher:
@@ -25,6 +30,7 @@
 import Walleye.Proofs.Caps
 import Walleye.Spec.Rules
 import Walleye.Proofs.StartWF
+import Walleye.Proofs.Complete
 namespace Walleye
 
 theorem spec_legalMoves_sound_complete (P : Spec.Position) (m : Spec.Move) (hm : m ∈ Spec.allMoves) :
@@ -79,6 +85,18 @@ theorem pseudo_targets_are_the_rules (p : Pos) (hr : RingOK p.board) (hi : Inner
     mov ∈ getMoves pc (toPt o).row (toPt o).col p.board .all ↔
       (OnBoard mov ∧ normalRule (abs p) o pc (specOf mov) = true) :=
   getMoves_spec p hr hi o ho pc hpc mov
+
+/-- **no legal move is missing**: every legal move of the specification is carried by a successor -/
+theorem no_legal_move_missing (h : Hasher) (p : Pos) (wf : WFp p) (m : Spec.Move)
+    (hm : Spec.legal (abs p) m = true) : ∃ q ∈ generateMoves h p .all, moveOf q = m :=
+  generateMoves_complete h p wf m hm
+
+/-- **C01 on the model**: the moves the full move generation yields are exactly the legal moves -/
+theorem generated_moves_are_exactly_the_legal_moves (h : Hasher) (p : Pos) (wf : WFp p) (m : Spec.Move) :
+    (∃ q ∈ generateMoves h p .all, moveOf q = m) ↔ Spec.legal (abs p) m = true := by
+  constructor
+  · rintro ⟨q, hq, rfl⟩; exact (generateMoves_sound h p wf q hq).1
+  · exact generateMoves_complete h p wf m
 
 /-- the premises are satisfiable: the start position is well formed -/
 theorem start_is_well_formed : WFp startPosition := start_wf
